@@ -295,6 +295,19 @@ def run_history(rep, drv, kind, ops, follow=True, corr=True):
         except C.Unspecified:
             cls = 'unspec'
         if cls == 'unspec':
+            if getattr(proto, 'unspec_reason', '') == 'empty slice target' and opname == 'setslice':
+                # a slice that selects no position of a non-empty container: the library may refuse it (lookup / library
+                # error, nothing changed) or do what a list does (insert the values: the length grows by their number);
+                # overwriting members elsewhere is neither
+                if out in ('lookup', 'lib', 'value'):
+                    if after != before:
+                        rep.fail('refused-op-changed-state-setslice', 'refused %s changed %s -> %s' % (C.op_sexp(op), before, after), step)
+                        return followed
+                elif before[0].isdigit() and after[0].isdigit() and int(after[0]) != int(before[0]) + len(op[3]):
+                    rep.fail('empty-slice-assignment-overwrites', '%s on %s members: accepted, length %s -> %s (a list inserts %d values; '
+                             'a refusal changes nothing)' % (C.op_sexp(op), before[0], before[0], after[0], len(op[3])), step)
+                    return followed
+        if cls == 'unspec':
             follow = False
             continue
         need = C.reader_obligations(kind, proto, op)
@@ -776,6 +789,12 @@ CORPUS = [
     # before field-2 as text): names, values and items stay in position order
     ('HIST rec 0 ()', ' '.join('(setpos %d (obj %d))' % (i, i) for i in range(12)) + ' (keys) (values) (items) (len) (encode)'),
     ('HIST rec 0 ()', ' '.join('(setpos %d (obj %d))' % (i, 20 - i) for i in range(13)) + ' (keys) (items) (clone 1) (keys) (encode)'),
+    # slices that select no position of a non-empty collection (the list idiom for extend, an inverted range): refused with
+    # nothing changed, or the values inserted - never written over members elsewhere
+    ('HIST seqof 1 0', '(extend (py 5) (py 6) (py 7)) (setslice 3 _ (py 9)) (len) (iter) (encode)'),
+    ('HIST seqof 1 0', '(extend (py 5) (py 6) (py 7)) (setslice 2 1 (py 9)) (len) (iter)'),
+    ('HIST seqof 1 1', '(extend (py 5) (py 6)) (setslice 4 _ (py 1) (py 2)) (len) (iter)'),
+    ('HIST seqof 0 0', '(append (obj 1)) (setslice 1 _ (obj 2)) (setslice 5 9 (obj 3)) (len)'),
     # a record without declared components grown past 256 members (the interpreter shares small ints up to 256: positions
     # beyond compare equal without being the same object)
     ('HIST rec 0 ()', ' '.join('(setpos %d (obj %d))' % (i, i % 7) for i in range(260)) + ' (len) (keys) (encode) (clone 1) (len)'),
